@@ -175,9 +175,15 @@ def mutate(rng, doc):
             elif op == "self-dep":
                 s.setdefault("run", {}).setdefault("depends", []).append(s.get("name"))
             elif op == "self-dep-star":
-                s.setdefault("run", {}).setdefault("depends", []).append("%s_*" % s.get("name"))
+                # every spelling the study builder resolves to the step itself
+                # (it removes each "_*" and "*" wherever they occur)
+                nm = str(s.get("name"))
+                spelled = rng.choice(["%s_*" % nm, "%s*" % nm, "*%s" % nm, nm[:1] + "*" + nm[1:],
+                                      nm[:1] + "_*" + nm[1:], "%s_*_*" % nm])
+                s.setdefault("run", {}).setdefault("depends", []).append(spelled)
             elif op == "undefined-dep":
-                s.setdefault("run", {}).setdefault("depends", []).append(rng.choice(["nosuch", "nosuch_*"]))
+                s.setdefault("run", {}).setdefault("depends", []).append(
+                    rng.choice(["nosuch", "nosuch_*", "nosuch*", "*"]))
             elif op == "dup-dep":
                 dep = s.setdefault("run", {}).setdefault("depends", [])
                 if dep:
